@@ -1,5 +1,239 @@
 import AiocoapModel.Basic.Bytes
-/-! Line protocol for C20 (not built yet). -/
+import AiocoapModel.Apps.Rd
+/-! Line protocol for the resource-directory model (C20).
+
+`C20 <grace> <tps> <op>*` — one whole history per line; every op is one token:
+
+    R:<remote>:<query>:<body>          register (POST to the directory resource)
+    U:<path>:<remote>:<query>:<body>   POST to the registration /reg/<path>/
+    P:<path>:<remote>:<query>:<body>   PUT
+    X:<path>   G:<path>                DELETE / GET of a registration
+    T:<ticks>                          time passes
+    E:<query>  S:<query>               endpoint / resource lookup
+
+`<remote>`: hex of `request.remote.uri`, `!` = anonymous.  `<query>`: `~` (empty) or
+`hexkey=hexvalue` items joined by `&` (`-` = empty string; an item without `=` is a valueless
+option: out-of-model).  `<body>`: Content-Format `n`one / `l`ink-format / `o`ther, then payload
+`e`mpty / `g`arbage / `k<link>;<link>…` with `<link>` = `hexhref,hexkey=hexvalue,…`.
+
+Output: one token per op (`C<path>` 2.01, `H` 2.04, `D` 2.02, `E<code>`, `T`, `G[…]` registration
+payload in order, `L[…]` lookup entries sorted), then ` | K[…] P[…]`: the two indexes, sorted.
+-/
+namespace Aiocoap.Rd
+
+/-- parse errors: `bad` (unparsable line) or `oom` (deliberately not modelled) -/
+inductive PErr | bad | oom
+
+abbrev P := Except PErr
+
+def hexP (s : String) : P Str :=
+  match hexToBytes s with
+  | some b => .ok b
+  | none => .error .bad
+
+def natP (s : String) : P Nat :=
+  match s.toNat? with
+  | some n => .ok n
+  | none => .error .bad
+
+def guard' (ok : Bool) : P Unit := if ok then .ok () else .error .oom
+
+/-- printable ASCII without `"` and `\` -/
+def charsetOk (s : Str) : Bool := s.all (fun b => 32 ≤ b && b ≤ 126 && b != 34 && b != 92)
+
+def isAlnum (b : Nat) : Bool := (48 ≤ b && b ≤ 57) || (65 ≤ b && b ≤ 90) || (97 ≤ b && b ≤ 122)
+
+/-- parameter / attribute names: non-empty, `[A-Za-z0-9._-]` -/
+def keyOk (s : Str) : Bool := !s.isEmpty && s.all (fun b => isAlnum b || b == 45 || b == 46 || b == 95)
+
+def sProxy : Str := [112, 114, 111, 120, 121]
+
+/-- `coap://`, `coaps://`, `coap+tcp://` followed by a non-empty authority `[A-Za-z0-9.:[]-]+`:
+for these `urljoin(base, "/path") = base ++ "/path"` -/
+def baseOk (s : Str) : Bool :=
+  let schemes : List Str := [[99, 111, 97, 112, 58, 47, 47], [99, 111, 97, 112, 115, 58, 47, 47],
+    [99, 111, 97, 112, 43, 116, 99, 112, 58, 47, 47]]
+  schemes.any (fun p => p.isPrefixOf s &&
+    (let rest := s.drop p.length
+     !rest.isEmpty && rest.all (fun b => isAlnum b || b == 46 || b == 58 || b == 91 || b == 93 || b == 45)))
+
+def hasDoubleSlash : Str → Bool
+  | 47 :: 47 :: _ => true
+  | _ :: rest => hasDoubleSlash rest
+  | [] => false
+
+/-- absolute-path references without dot segments, queries or empty segments -/
+def hrefOk (s : Str) : Bool :=
+  s.head? == some 47 && s.all (fun b => isAlnum b || b == 47 || b == 45 || b == 95) && !hasDoubleSlash s
+
+def ltOk (v : Str) : Bool :=
+  !(v.any (fun b => b == 32 || b == 95)) &&
+  (match parseInt v with
+   | some n => decide (n.natAbs < 2 ^ 40)
+   | none => true)
+
+def parseItem (s : String) : P (Str × Str) :=
+  match s.splitOn "=" with
+  | [k, v] => do
+    let k ← hexP k
+    let v ← hexP v
+    guard' (keyOk k && charsetOk v)
+    pure (k, v)
+  | [k] => do
+    let _ ← hexP k
+    .error .oom                 -- valueless query option
+  | _ => .error .bad
+
+def parseQuery (s : String) : P Query :=
+  if s = "~" then .ok [] else (s.splitOn "&").mapM parseItem
+
+/-- a query of a registration / update: extra guards -/
+def writeQueryOk (q : Query) : Bool :=
+  q.all (fun e => e.1 != sProxy &&
+    (e.1 != sLt || ltOk e.2) && (e.1 != sBase || baseOk e.2))
+
+def lookupQueryOk (q : Query) : Bool :=
+  q.all (fun e => e.1 != sPage && e.1 != sCount && e.2.getLast? != some 42)
+
+def parseRemote (s : String) : P (Option Str) :=
+  if s = "!" then .ok none else do
+    let b ← hexP s
+    guard' (baseOk b)
+    pure (some b)
+
+def parseAttr (s : String) : P (Str × Str) :=
+  match s.splitOn "=" with
+  | [k, v] => do
+    let k ← hexP k
+    let v ← hexP v
+    guard' (keyOk k && charsetOk v && k != sAnchor)
+    pure (k, v)
+  | _ => .error .bad
+
+def parseLink (s : String) : P Link :=
+  match s.splitOn "," with
+  | [] => .error .bad
+  | h :: attrs => do
+    let h ← hexP h
+    guard' (hrefOk h)
+    let attrs ← attrs.mapM parseAttr
+    pure { href := h, attrs := attrs }
+
+def parseBody (s : String) : P Body :=
+  match s.toList with
+  | cf :: pl :: rest => do
+    let cf ← (match cf with
+      | 'n' => .ok CF.absent | 'l' => .ok CF.linkFormat | 'o' => .ok CF.other | _ => .error .bad)
+    let payload ← (match pl with
+      | 'e' => if rest.isEmpty then .ok (Payload.links []) else .error .bad
+      | 'g' => if rest.isEmpty then .ok Payload.garbage else .error .bad
+      | 'k' => do
+        let ls ← ((String.ofList rest).splitOn ";").mapM parseLink
+        pure (Payload.links ls)
+      | _ => .error .bad)
+    pure { cf := cf, payload := payload }
+  | _ => .error .bad
+
+def parseOp (s : String) : P Op :=
+  match s.splitOn ":" with
+  | ["R", remote, q, body] => do
+    let remote ← parseRemote remote
+    let q ← parseQuery q
+    guard' (writeQueryOk q)
+    let body ← parseBody body
+    pure (.register remote q body)
+  | ["U", path, remote, q, body] => do
+    let path ← natP path
+    let remote ← parseRemote remote
+    let q ← parseQuery q
+    guard' (writeQueryOk q)
+    let body ← parseBody body
+    pure (.update path remote q body)
+  | ["P", path, remote, q, body] => do
+    let path ← natP path
+    let remote ← parseRemote remote
+    let q ← parseQuery q
+    guard' (writeQueryOk q)
+    let body ← parseBody body
+    pure (.put path remote q body)
+  | ["X", path] => do pure (.delete (← natP path))
+  | ["G", path] => do pure (.read (← natP path))
+  | ["T", dt] => do
+    let dt ← natP dt
+    guard' (decide (dt < 2 ^ 40))
+    pure (.advance dt)
+  | ["E", q] => do
+    let q ← parseQuery q
+    guard' (lookupQueryOk q)
+    pure (.lookupEp q)
+  | ["S", q] => do
+    let q ← parseQuery q
+    guard' (lookupQueryOk q)
+    pure (.lookupRes q)
+  | _ => .error .bad
+
+/-- all ops; a `bad` token anywhere wins over `oom` -/
+def parseOps (toks : List String) : P (List Op) :=
+  let rs := toks.map parseOp
+  if rs.any (fun r => match r with | .error .bad => true | _ => false) then .error .bad
+  else rs.mapM id
+
+-- printing ----------------------------------------------------------------------------------
+
+def sortStrings (l : List String) : List String := l.mergeSort (fun a b => compare a b != .gt)
+
+def showAttr (a : Str × Str) : String := bytesToHex a.1 ++ "=" ++ bytesToHex a.2
+
+def showLink (l : Link) : String := ",".intercalate (bytesToHex l.href :: l.attrs.map showAttr)
+
+/-- `get_host_link` (rd.py:263-270); attributes sorted because `registration_parameters` is a dict -/
+def showHostLink (r : Reg) : String :=
+  let pairs := r.params.flatMap (fun e => e.2.map (fun v => (e.1, v)))
+  let attrs := pairs ++ [(sBase, r.base), (sRt, [99, 111, 114, 101, 46, 114, 100, 45, 101, 112])]
+  ",".intercalate (bytesToHex r.href :: sortStrings (attrs.map showAttr))
+
+def showOptStr : Option Str → String
+  | none => "~"
+  | some s => bytesToHex s
+
+def showResp : Resp → String
+  | .created p => s!"C{p}"
+  | .changed => "H"
+  | .deleted => "D"
+  | .regLinks ls => "G[" ++ ";".intercalate (ls.map showLink) ++ "]"
+  | .endpoints rs => "L[" ++ ";".intercalate (sortStrings (rs.map showHostLink)) ++ "]"
+  | .resources ls => "L[" ++ ";".intercalate (sortStrings (ls.map showLink)) ++ "]"
+  | .err code => s!"E{code}"
+  | .ticked => "T"
+
+def showKeyEntry (e : Key × Reg) : String :=
+  s!"{bytesToHex e.1.1}/{showOptStr e.1.2}/{e.2.path}/{e.2.lt}/{bytesToHex e.2.base}/{if e.2.baseExplicit then 1 else 0}"
+
+def showPathEntry (e : Nat × Reg) : String :=
+  s!"{e.1}/{bytesToHex e.2.ep}/{showOptStr e.2.d}"
+
+def showState (s : State) : String :=
+  "K[" ++ ";".intercalate (sortStrings (s.byKey.map showKeyEntry)) ++ "] P[" ++
+    ";".intercalate (sortStrings (s.byPath.map showPathEntry)) ++ "]"
+
+end Aiocoap.Rd
+
 namespace Aiocoap
-def handleC20 (_args : List String) : String := "out-of-model"
+open Aiocoap.Rd
+
+def handleC20 (args : List String) : String :=
+  match args with
+  | grace :: tps :: ops =>
+    match grace.toInt?, tps.toNat? with
+    | some grace, some tps =>
+      if tps = 0 then "bad-op" else
+      match parseOps ops with
+      | .error .bad => "bad-op"
+      | .error .oom => "out-of-model"
+      | .ok ops =>
+        let r := run { grace := grace, tps := tps } State.init ops
+        " ".intercalate (r.2.map showResp) ++ " | " ++ showState r.1
+    | _, _ => "bad-op"
+  | _ => "bad-op"
+
 end Aiocoap
